@@ -49,26 +49,28 @@ var (
 )
 
 type c02Run struct {
-	t       *testing.T
-	r       *kit.Result
-	v       *vCore
-	w       *c02World
-	rng     *kit.Rand
-	caseID  string
-	digest  string
-	steps   []string
-	nreq    int
-	aborted bool
-	moves   int
-	pairs   int
-	sealed  bool
-	expiry  []*c02ExpiryFault
+	t        *testing.T
+	r        *kit.Result
+	v        *vCore
+	w        *c02World
+	rng      *kit.Rand
+	caseID   string
+	digest   string
+	steps    []string
+	nreq     int
+	aborted  bool
+	moves    int
+	pairs    int
+	sealed   bool
+	expiry   []*c02ExpiryFault
+	curFault *c02Fault // the fault armed for the revocation that is running, if any
+	waited   time.Duration
 }
 
 func (x *c02Run) step(format string, a ...any) {
 	x.steps = append(x.steps, fmt.Sprintf(format, a...))
 	if c02Trace {
-		x.t.Logf("step: %s", strings.ReplaceAll(x.steps[len(x.steps)-1], "\n", " "))
+		x.t.Logf("step %s: %s", time.Now().Format("05.000"), strings.ReplaceAll(x.steps[len(x.steps)-1], "\n", " "))
 	}
 	if len(x.steps) > 60 {
 		x.steps = x.steps[len(x.steps)-60:]
@@ -1278,7 +1280,9 @@ func (x *c02Run) mutate() {
 			if faulted {
 				f = x.arm(c02RevocationOps(nodes[k]), 1+rng.Intn(40), false)
 			}
+			x.curFault = f
 			st := x.revokeAndClassify(fl, nodes[k], nil)
+			x.curFault = nil
 			if f != nil {
 				f.disarm()
 			}
@@ -1630,7 +1634,7 @@ func c02RunTopology(t *testing.T, r *kit.Result, seed int64, stream uint64, case
 func TestVerif_C02_Requests(t *testing.T) {
 	seed := kit.Seed(2)
 	shard, _ := kit.Shard()
-	r := kit.NewResult(t, "c02-requests", seed, "generated namespace trees (depth<=3) x recording secrets/auth mounts at nested and sibling-prefix paths x generated ACL policies (exact, trailing-*, + segments, deny, sudo) x tokens in the states {absent, garbage, one character / one byte (head, middle, signature) flipped, truncated signature, revoked, expired, exhausted, exhausted with the queued revocation of the spent token failing once, last use, CIDR-bound, disabled entity, batch, batch mutated / expired, batch created by a service token that is live / revoked completely / revoked through a generated API flow with one storage fault at a generated operation index (the record stays marked in storage) / expired and reaped / expired with the expiry job failing once (record left) / use-limited (creation must be refused), other namespace, root, root policy of a child or grand-child namespace (namespace root token, its child and its orphan child) presented with every namespace of the tree on secrets, auth and system paths}; every request (plain, rule-directed and hostile forms: trailing and doubled slashes, ./.. segments, mount-boundary, namespace by header or by path prefix, unknown namespaces, restricted sys APIs in child namespaces, internal operations) is judged by the reference authoriser and compared with handler log, response class, tagged physical writes and a digest of the recording mounts' storage; configuration changes (policy rewrite/delete/recreate, token revocation by id / accessor / self, revocation of the parent of a batch token by six API flows with and without a storage fault, entity disable and entity policies, unmount / mount / remount, one seal-unseal cycle with requests against the sealed core) are bracketed by the same request before and immediately after; three of four topologies run with the cache (and therefore the policy LRU) enabled, half on a transactional store. A case is non-trivial when (a) a request was refused only because of the token state while its policies allow it, (b) an authorised request reached the handler, or (c) a mutation flipped the verdict of the very next request; distinct by (state, op, mount, backend path)")
+	r := kit.NewResult(t, "c02-requests", seed, "generated namespace trees (depth<=3) x recording secrets/auth mounts at nested and sibling-prefix paths x generated ACL policies (exact, trailing-*, + segments, deny, sudo) x tokens in the states {absent, garbage, one character / one byte (head, middle, signature) flipped, truncated signature, revoked, expired, exhausted, exhausted with the queued revocation of the spent token failing once, last use, CIDR-bound, disabled entity, batch, batch mutated / expired, batch created by a service token that is live / revoked completely / revoked through a generated API flow with one storage fault at a generated operation index (the record stays marked in storage) / expired and reaped / expired with the expiry job failing once (record left) / use-limited (creation must be refused), other namespace, root, root policy of a child or grand-child namespace (namespace root token, its child and its orphan child) presented with every namespace of the tree on secrets, auth and system paths, descendant of a revoked ancestor in another namespace}; a sweep of token-handle requests (auth/token/{lookup, lookup-accessor, renew, renew-accessor, revoke, revoke-accessor, revoke-orphan} by callers that hold these paths only in their own namespace, only on the path of a descendant namespace, without sudo or as a generated mix, and by every other token of the world, naming tokens of every namespace in client form, internal form or by accessor, addressed to any namespace) judged on the namespace of the named token; every request (plain, rule-directed and hostile forms: trailing and doubled slashes, ./.. segments, mount-boundary, namespace by header or by path prefix, unknown namespaces, restricted sys APIs in child namespaces, internal operations) is judged by the reference authoriser and compared with handler log, response class, tagged physical writes and a digest of the recording mounts' storage; configuration changes (policy rewrite/delete/recreate, token revocation by id / accessor / self, revocation of the parent of a batch token by six API flows with and without a storage fault, revocation of an inner node of a token chain that crosses namespace boundaries (parent namespace -> namespace -> namespace / child namespace, 3-4 levels, optional extra leaves) by the same flows followed at once by every other node of the chain, entity disable and entity policies, unmount / mount / remount, one seal-unseal cycle with requests against the sealed core) are bracketed by the same request before and immediately after; three of four topologies run with the cache (and therefore the policy LRU) enabled, half on a transactional store. A case is non-trivial when (a) a request was refused only because of the token state while its policies allow it, (b) an authorised request reached the handler, or (c) a mutation flipped the verdict of the very next request; distinct by (state, op, mount, backend path)")
 	defer r.Write(t)
 	ntopo := kit.N(24, 100)
 	nreq := kit.N(800, 2500)
